@@ -239,6 +239,7 @@ type Conn struct {
 	LateWriteOK bool  // writes after the peer closed succeed and are discarded (default: fail)
 	WriteErr    error // error returned by failing writes (default io.ErrClosedPipe)
 	ClosedErr   error // error returned by Read/Write/Close after the library closed the connection (default ErrClosed; real transports: io.ErrClosedPipe for net.Pipe, a *net.OpError wrapping net.ErrClosed for TCP)
+	Stalled     bool  // the peer has stopped reading: Write blocks until the connection is closed (set under Tr.Mu)
 	CloseErr    error // the first Close closes the connection AND returns this error (TLS close-notify failures, websocket close frames ...)
 	CloseLinger int   // Close returns late: the connection is closed and its reader woken, then Close sleeps this many 100 µs slices before it returns
 
@@ -315,6 +316,12 @@ func (c *Conn) write(b []byte) (int, error) {
 		werr = io.ErrClosedPipe
 	}
 	g := goid()
+	if c.Stalled && !c.LocalClosed && !c.PeerClosed {
+		tr.AddLocked(Event{Kind: KNote, Conn: c.ID, S: fmt.Sprintf("Write of %d bytes blocks: the peer has stopped reading", len(b))})
+		for c.Stalled && !c.LocalClosed && !c.PeerClosed {
+			c.cond.Wait()
+		}
+	}
 	if c.LocalClosed || (c.PeerClosed && !c.LateWriteOK) {
 		c.recordAttempt(b, false, g, "closed")
 		if c.LocalClosed {
